@@ -59,6 +59,10 @@ DATA_PUMPS = [("*[%s]: t\n*[%s]: t2\n\nThe %s" % (k, k.split()[0], " ".join(k.sp
               for k in DATA_KEYS for j in range(1, len(k.split()) + 1) for u in ((" ", "\t", " " + k.split()[0]) if j < len(k.split()) else (" ", k.split()[0][:1]))]
 # lazy continuation lines below nested containers (each line is looked at by every open container)
 LAZY_PUMPS = [(pre, unit, "") for pre in (">>", "> > ", ">>>", "> > > > ", "> - ", "- > ", "1. > - ", "> > - > ", ">! >! ") for unit in ("a\n", "a b\n", "*a\n")]
+# containers and blocks that interrupt each other line after line (each block is parsed in place by the one it interrupts: a handler that
+# runs twice per interruption doubles the work with every line)
+LAZY_PUMPS += [("", unit, "") for unit in ("> a\n- b\n", "- a\n> b\n", "> a\n1. b\n", "> a\n***\n", "- a\n# h\n", "> a\n```\nc\n```\n", "- a\n<div>\n\n", ">! a\n- b\n",
+                                          "> a\n- b\n> c\n1. d\n", "- a\n> b\n***\n")]
 CLASSIC = LAZY_PUMPS + [("", u, "") for u in PLUGIN_UNITS] + [("", u, "\n\n[r]: /u\n[^a]: n\n*[A]: x\n") for u in PLUGIN_UNITS[:12]] + DATA_PUMPS + [
     ("[a](b \"", "\\!", ""), ("[a]: /u '", "\\'", ""), ("[", "\\a", ""), ("[", "\\a", "] x"), ("[^", "\\a", ""), ("a", " ", "b"), ("a", "\t", "b"), ("", "a ", "\n"),
     ("", "[", ""), ("", "![", ""), ("", "[a](", ""), ("", "*a ", ""), ("", "**a ", ""), ("", "_a_", ""), ("", "*", "a"), ("", "`", "a"), ("", "` `` ", ""), ("", "<", ""),
